@@ -476,6 +476,10 @@ func allParts(c *Check, tier string) []Part {
 	if tier == "thorough" {
 		parts = append(parts, c.ThoroughParts...)
 	}
+	// development aid (sensitivity experiments): VERIF_ONLY_PART=<index> runs one part of the check only
+	if i := envInt("VERIF_ONLY_PART", -1); i >= 0 && int(i) < len(parts) {
+		return parts[i : i+1]
+	}
 	return parts
 }
 
